@@ -243,7 +243,7 @@ def nshards(tier):
 
 def shard(tier, seed, idx) -> ShardResult:
     res = ShardResult()
-    comp.run(PROP, st_case(), check_case, lambda f: {"m_ge_3", "event_straddles_split"} <= f, res, cases=32 if tier == "quick" else 1000, seed=seed * 1000 + idx,
+    comp.run(PROP, st_case(), check_case, lambda f: {"m_ge_3", "event_straddles_split"} <= f, res, cases=32 if tier == "quick" else 600, seed=seed * 1000 + idx,
              kind="component", sample_fn=lambda c: {"world": world_summary(c["world"]), "parts": c["parts"], "reinject": c["reinject"], "det": c["det"]})
     return res
 
